@@ -990,4 +990,210 @@ theorem rpath_congr {Rin Rout Rin' Rout' : Nat → Nat → Prop} (h1 : ∀ v w, 
   have e2 : Rout = Rout' := by funext v w; exact propext (h2 v w)
   rw [e1, e2]
 
+
+/-! ### the convexity test -/
+
+theorem nodup_iff_injOn_getD (l : List Nat) :
+    l.Nodup ↔ InjOn l.length (fun i => l.getD i 0) := by
+  rw [FinFun.nodup_iff_inj]
+  unfold InjOn
+  constructor
+  · intro h i j hi hj hij
+    apply h i j hi hj
+    simp only [List.getD_eq_getElem?_getD, List.getElem?_eq_getElem hi, List.getElem?_eq_getElem hj,
+      Option.getD_some] at hij
+    rw [List.getElem?_eq_getElem hi, List.getElem?_eq_getElem hj, hij]
+  · intro h i j hi hj hij
+    apply h i j hi hj
+    rw [List.getElem?_eq_getElem hi, List.getElem?_eq_getElem hj, Option.some.injEq] at hij
+    simp only [List.getD_eq_getElem?_getD, List.getElem?_eq_getElem hi, List.getElem?_eq_getElem hj,
+      Option.getD_some, hij]
+
+theorem HArrow.isMonomorphism_eq (m : HArrow O A) (hw : m.w.WF) (hx : m.x.WF) :
+    m.isMonomorphism = .ok (decide m.w.table.Nodup && decide m.x.table.Nodup) := by
+  unfold HArrow.isMonomorphism
+  rw [FinFun.isInjective_ok m.w hw, FinFun.isInjective_ok m.x hx]
+  by_cases h : m.w.table.Nodup <;> simp [h]
+
+theorem not_marked_replicate (n v : Nat) : ¬ Marked (List.replicate n 0) v := by
+  unfold Marked
+  simp only [List.getD_eq_getElem?_getD, List.getElem?_replicate, ne_eq, not_not]
+  split <;> rfl
+
+theorem mem_getD_iff (l : List Nat) (u : Nat) : u ∈ l ↔ ∃ i, i < l.length ∧ l.getD i 0 = u := by
+  constructor
+  · intro h
+    obtain ⟨i, hi, rfl⟩ := List.getElem_of_mem h
+    exact ⟨i, hi, by simp [List.getD_eq_getElem?_getD, List.getElem?_eq_getElem hi]⟩
+  · rintro ⟨i, hi, rfl⟩
+    simp only [List.getD_eq_getElem?_getD, List.getElem?_eq_getElem hi, Option.getD_some]
+    exact List.getElem_mem hi
+
+theorem HArrow.isConvexSubgraph_spec (B : Backend) (hB : B.Lawful) (m : HArrow O A) (hw : m.Wf)
+    (h1 : m.w.source = m.source.w.length) (h2 : m.w.target = m.target.w.length)
+    (h3 : m.x.source = m.source.x.length) (h4 : m.x.target = m.target.x.length) :
+    ∃ b, m.isConvexSubgraph B = .ok b ∧
+      (b = true ↔ Convex (⟨m.source.w, m.source.toPlainEdges, [], []⟩ : PDiag O A)
+        ⟨m.target.w, m.target.toPlainEdges, [], []⟩ m.wFn m.xFn) := by
+  have hT : m.target.wf = true := (HG.wf_iff _).2 hw.target
+  have hS : m.source.wf = true := (HG.wf_iff _).2 hw.source
+  have hlenE : m.source.toPlainEdges.length = m.x.table.length := by
+    rw [toPlainEdges_length _ hS, ← h3]; rfl
+  have hlenN : m.source.w.length = m.w.table.length := h1.symm
+  unfold HArrow.isConvexSubgraph Convex
+  simp only [hlenE, hlenN]
+  rw [HArrow.isMonomorphism_eq m hw.w hw.x]
+  simp only [Res.ok_bind]
+  by_cases hmono : m.w.table.Nodup ∧ m.x.table.Nodup
+  case neg =>
+    have : (decide m.w.table.Nodup && decide m.x.table.Nodup) = false := by
+      rw [Bool.eq_false_iff]; intro hc; apply hmono; simpa using hc
+    rw [this]
+    refine ⟨false, rfl, ?_⟩
+    simp only [Bool.false_eq_true, false_iff]
+    rintro ⟨i1, i2, _⟩
+    exact hmono ⟨(nodup_iff_injOn_getD _).2 i1, (nodup_iff_injOn_getD _).2 i2⟩
+  have hm : (decide m.w.table.Nodup && decide m.x.table.Nodup) = true := by simpa using hmono
+  have inj1 : InjOn m.w.table.length m.wFn := (nodup_iff_injOn_getD _).1 hmono.1
+  have inj2 : InjOn m.x.table.length m.xFn := (nodup_iff_injOn_getD _).1 hmono.2
+  rw [hm]
+  simp only [Bool.not_true, Bool.false_eq_true, if_false]
+  -- the mask of image edges and the list of outside edges
+  have hxlt : ∀ i ∈ m.x.table, i < (List.replicate m.target.x.length 0).length := by
+    intro i hi; rw [List.length_replicate, ← h4]; exact hw.x i hi
+  obtain ⟨mask, hmask, lmask, mmask⟩ := mark_spec (List.replicate m.target.x.length 0) m.x.table hxlt
+  rw [List.length_replicate] at lmask
+  have hzero : ∀ i, i ∈ zero mask ↔ i < m.target.x.length ∧ i ∉ m.x.table := by
+    intro i
+    rw [Prim.mem_zero]
+    constructor
+    · intro h
+      have hi : i < mask.length := (List.getElem?_eq_some_iff.1 h).1
+      refine ⟨lmask ▸ hi, fun hc => ?_⟩
+      have := (mmask i).2 (Or.inl hc)
+      unfold Marked at this
+      simp [List.getD_eq_getElem?_getD, h] at this
+    · rintro ⟨hi, hni⟩
+      have : ¬ Marked mask i := fun hc => by
+        rcases (mmask i).1 hc with h | h
+        · exact hni h
+        · exact not_marked_replicate _ _ h
+      unfold Marked at this
+      have hi' : i < mask.length := lmask ▸ hi
+      simp only [List.getD_eq_getElem?_getD, List.getElem?_eq_getElem hi', Option.getD_some, ne_eq,
+        not_not] at this
+      rw [List.getElem?_eq_getElem hi', this]
+  have hout : FinFun.new (zero mask) m.target.x.length = .ok ⟨zero mask, m.target.x.length⟩ :=
+    IC.finfun_new_ok _ _ (fun i hi => ((hzero i).1 hi).1)
+  obtain ⟨sIn, tIn, aIn, e1, e2, e3, wfIn, lenIn, depIn⟩ :=
+    adjacency_of_indexes B hB m.target hT m.x hw.x h4
+  obtain ⟨sOut, tOut, aOut, f1, f2, f3, wfOut, lenOut, depOut⟩ :=
+    adjacency_of_indexes B hB m.target hT ⟨zero mask, m.target.x.length⟩
+      (fun i hi => ((hzero i).1 hi).1) rfl
+  obtain ⟨aAll, g1, wfAll, lenAll, _, depAll⟩ := nodeAdjacency_spec B hB m.target hT
+  have hwlt : ∀ i ∈ m.w.table, i < (List.replicate m.target.w.length 0).length := by
+    intro i hi; rw [List.length_replicate, ← h2]; exact hw.w i hi
+  obtain ⟨v0, hv0, lv0, mv0⟩ := mark_spec (List.replicate m.target.w.length 0) m.w.table hwlt
+  rw [List.length_replicate] at lv0
+  have mv0' : ∀ v, Marked v0 v ↔ v ∈ m.w.table := fun v =>
+    ⟨fun h => ((mv0 v).1 h).resolve_right (not_marked_replicate _ _), fun h => (mv0 v).2 (Or.inl h)⟩
+  rw [hmask]
+  simp only [Res.ok_bind, hout, Res.unwrap_ok, e1, e2, e3, f1, f2, f3, g1, hv0]
+  -- the relations
+  have hall : ∀ v w, adjDep aAll v w ↔ adjDep aIn v w ∨ adjDep aOut v w := by
+    intro v w
+    rw [depAll, depIn, depOut]
+    unfold nodeStep
+    constructor
+    · rintro ⟨e, he, hv, hw'⟩
+      obtain ⟨k, hk⟩ := List.getElem?_of_mem he
+      have hs : stepVia (⟨m.target.w, m.target.toPlainEdges, [], []⟩ : PDiag O A) k v w :=
+        ⟨e, hk, hv, hw'⟩
+      by_cases hin : k ∈ m.x.table
+      · exact Or.inl ⟨k, hin, hs⟩
+      · exact Or.inr ⟨k, (hzero k).2 ⟨stepVia_lt _ hT _ _ _ hs, hin⟩, hs⟩
+    · rintro (⟨k, _, e, hk, hv, hw'⟩ | ⟨k, _, e, hk, hv, hw'⟩)
+      · exact ⟨e, List.mem_of_getElem? hk, hv, hw'⟩
+      · exact ⟨e, List.mem_of_getElem? hk, hv, hw'⟩
+  -- the initial state satisfies the invariant
+  have inv0 : CInv aIn aOut aAll m.w.table
+      ⟨v0, List.replicate m.target.w.length 0, m.w.table, []⟩ := by
+    refine ⟨by rw [lv0, lenIn], by rw [List.length_replicate, lenIn], hmono.1, List.nodup_nil,
+      fun v hv => (mv0' v).2 hv, fun v hv => by simp at hv, fun u hu => (mv0' u).2 hu,
+      fun v hv => ⟨v, (mv0' v).1 hv, RPath.nil⟩,
+      fun v hv => absurd hv (not_marked_replicate _ _),
+      fun v hv hnf => absurd ((mv0' v).1 hv) hnf, fun v hv hnf => absurd ((mv0' v).1 hv) hnf,
+      fun v hv => absurd hv (not_marked_replicate _ _)⟩
+  have hμ : unmarked v0 + unmarked (List.replicate m.target.w.length 0) <
+      2 * m.target.w.length + 2 := by
+    have a1 := unmarked_le v0
+    have a2 := unmarked_le (List.replicate m.target.w.length 0)
+    rw [List.length_replicate] at a2
+    omega
+  obtain ⟨st, hst, fin⟩ := convexLoop_spec B hB wfIn wfOut wfAll (by rw [lenOut, lenIn])
+    (by rw [lenAll, lenIn]) hall (2 * m.target.w.length + 2) _ inv0 hμ
+  rw [hst]
+  simp only [Res.ok_bind]
+  have hglt : ∀ i ∈ m.w.table, i < st.visited1.length := by
+    intro i hi; rw [fin.len1, lenIn, ← h2]; exact hw.w i hi
+  rw [Prim.gather_ok _ _ hglt]
+  have hgm : gatherP st.visited1 m.w.table = m.w.table.map (fun y => st.visited1.getD y 0) := by
+    apply FinFun.gatherP_eq_map
+    intro i hi
+    simp [List.getD_eq_getElem?_getD, List.getElem?_eq_getElem (hglt i hi)]
+  rw [hgm]
+  refine ⟨_, rfl, ?_⟩
+  -- the final test: some image node is marked in layer 1
+  have hfinal : (∃ u ∈ m.w.table, Marked st.visited1 u) ↔
+      ∃ i j, i < m.w.table.length ∧ j < m.w.table.length ∧
+        PathUsing (⟨m.target.w, m.target.toPlainEdges, [], []⟩ : PDiag O A)
+          (fun e => ∃ k, k < m.x.table.length ∧ m.xFn k = e) (m.wFn i) (m.wFn j) true := by
+    have hcongr := fun u v => rpath_congr
+      (Rin := adjDep aIn) (Rout := adjDep aOut)
+      (Rin' := fun v w => ∃ e, stepVia (⟨m.target.w, m.target.toPlainEdges, [], []⟩ : PDiag O A) e v w ∧
+        ∃ k, k < m.x.table.length ∧ m.xFn k = e)
+      (Rout' := fun v w => ∃ e, stepVia (⟨m.target.w, m.target.toPlainEdges, [], []⟩ : PDiag O A) e v w ∧
+        ¬ ∃ k, k < m.x.table.length ∧ m.xFn k = e)
+      (fun v w => by
+        rw [depIn]
+        exact exists_congr fun e => by rw [mem_getD_iff, and_comm]; rfl)
+      (fun v w => by
+        rw [depOut]
+        refine exists_congr fun e => ?_
+        simp only [hzero, mem_getD_iff]
+        constructor
+        · rintro ⟨⟨_, hn⟩, hs⟩; exact ⟨hs, hn⟩
+        · rintro ⟨hs, hn⟩; exact ⟨⟨stepVia_lt _ hT _ _ _ hs, hn⟩, hs⟩) u v true
+    constructor
+    · rintro ⟨u, hu, hmk⟩
+      obtain ⟨u', hu', hp⟩ := (fin.marked1_iff hall u).1 hmk
+      obtain ⟨j, hj, rfl⟩ := (mem_getD_iff _ _).1 hu
+      obtain ⟨i, hi, rfl⟩ := (mem_getD_iff _ _).1 hu'
+      exact ⟨i, j, hi, hj, (pathUsing_iff_rpath _ _ _ _ _).2 ((hcongr _ _).1 hp)⟩
+    · rintro ⟨i, j, hi, hj, hp⟩
+      refine ⟨m.wFn j, (mem_getD_iff _ _).2 ⟨j, hj, rfl⟩, (fin.marked1_iff hall _).2
+        ⟨m.wFn i, (mem_getD_iff _ _).2 ⟨i, hi, rfl⟩, (hcongr _ _).2 ((pathUsing_iff_rpath _ _ _ _ _).1 hp)⟩⟩
+  rw [← hfinal]
+  cases hmx : Prim.max (m.w.table.map (fun y => st.visited1.getD y 0)) with
+  | none =>
+    have := (Prim.max_eq_none_iff _).1 hmx
+    have : m.w.table = [] := by simpa using this
+    simp only [this, List.not_mem_nil, false_and, exists_false, not_false_eq_true, and_true,
+      Bool.not_false, true_iff]
+    exact ⟨this ▸ inj1, inj2⟩
+  | some mx =>
+    obtain ⟨a1, a2⟩ := Prim.max_eq_some _ _ hmx
+    have hmax : mx ≥ 1 ↔ ∃ u ∈ m.w.table, Marked st.visited1 u := by
+      constructor
+      · intro hge
+        obtain ⟨u, hu, rfl⟩ := List.mem_map.1 a1
+        exact ⟨u, hu, by unfold Marked; omega⟩
+      · rintro ⟨u, hu, hmk⟩
+        have := a2 _ (List.mem_map.2 ⟨u, hu, rfl⟩)
+        unfold Marked at hmk
+        omega
+    simp only [Bool.not_eq_true', decide_eq_false_iff_not, hmax]
+    exact ⟨fun h => ⟨inj1, inj2, h⟩, fun h => h.2.2⟩
+
+
 end OH.Graph
